@@ -23,10 +23,35 @@ def header(path):
         elif not line.startswith('#'): break
     return h
 
+import threading
+_controls, _control_lock = {}, threading.Lock()
+
+def control(props, tier):
+    """The same command on the unchanged tree: a mutant only counts as detected when its check is silent there
+    (a check that fails for a reason of its own would otherwise 'detect' every mutant)."""
+    with _control_lock:
+        k = (props, tier)
+        if k not in _controls:
+            d = tempfile.mkdtemp(prefix='gqlctl-', dir=SCRATCH)
+            try:
+                out = os.path.join(d, 'out'); os.makedirs(out)
+                env = dict(os.environ, VERIF_REPO=REPO, VERIF_OUT=out, VERIF_DIR=VERIF)
+                r = subprocess.run([os.environ.get('VERIF_BIN') or os.path.join(VERIF, 'bin', 'gqlcheck'), 'check', props, tier], capture_output=True, text=True, env=env, cwd=VERIF)
+                viol = [l for l in (r.stdout + r.stderr).splitlines() if l.startswith(('VIOLATED', 'UNDECIDED', 'ANALYSIS-FAILURE'))]
+                _controls[k] = '' if r.returncode == 0 else ('control failed: `check %s %s` alarms on the unchanged tree: %s' % (props, tier, ' || '.join(l[:200] for l in viol[:3])))
+                print('CONTROL %s %s: %s' % (props, tier, 'silent' if r.returncode == 0 else 'ALARM'), flush=True)
+            finally:
+                shutil.rmtree(d, ignore_errors=True)
+        return _controls[k]
+
 def run_variant(path, kind):
     h = header(path)
     props = ','.join(h.get('property', ['all']))
     tier = h.get('tier', ['quick'])[0]
+    if kind == 'mutants':
+        c = control(props, tier)
+        if c:
+            return (path, False, c)
     d = tempfile.mkdtemp(prefix='gqlmut-', dir=SCRATCH)
     try:
         repo = os.path.join(d, 'repo'); out = os.path.join(d, 'out'); os.makedirs(out)
